@@ -294,16 +294,36 @@ func (f *fn) pkgVar(n ast.Node, o *types.Var) val {
 	if isErrorType(o.Type()) {
 		return val{s: fmt.Sprintf("(Err.var %q)", o.Name()), t: o.Type()}
 	}
+	if kindOf(o.Type()) == kMap {
+		return val{s: f.x.pkgMap(f, n, o), t: o.Type()}
+	}
 	f.unsupported(n, "package-level variable %s.%s", o.Pkg().Name(), o.Name())
 	return val{}
 }
 
 func (f *fn) binary(e *ast.BinaryExpr) val {
+	for _, pr := range [][2]ast.Expr{{e.X, e.Y}, {e.Y, e.X}} {
+		if fi := f.externField(pr[0]); fi != nil {
+			id, ok := pr[1].(*ast.Ident)
+			if !ok || id.Name != "nil" || (e.Op != token.EQL && e.Op != token.NEQ) {
+				f.unsupported(e, "use of external object %s other than a method call or a comparison with nil", fi.name)
+			}
+			lv := f.externByName[fi.name+"_isNil"]
+			s := lv.name
+			if e.Op == token.NEQ {
+				s = "(!" + s + ")"
+			}
+			return val{s: s, t: types.Typ[types.Bool]}
+		}
+	}
 	a, b := f.expr(e.X), f.expr(e.Y)
 	rt := f.typeOf(e)
 	switch e.Op {
 	case token.LAND, token.LOR:
 		g := append([]string{}, a.g...)
+		if hasBind(b.g) {
+			f.unsupported(e, "right operand of %s calls a function that can panic (conditional evaluation of such a call is outside the subset)", e.Op)
+		}
 		for _, x := range b.g {
 			if e.Op == token.LAND {
 				g = append(g, "(!"+a.s+" || "+x+")")
@@ -318,6 +338,16 @@ func (f *fn) binary(e *ast.BinaryExpr) val {
 		return val{s: "(" + a.s + op + b.s + ")", g: g, t: rt}
 	}
 	g := append(append([]string{}, a.g...), b.g...)
+	if a.isNil && !b.isNil {
+		a = f.convVal(a, b.t, e.X)
+	} else if b.isNil && !a.isNil {
+		b = f.convVal(b, a.t, e.Y)
+	}
+	if kindOf(a.t) == kErr && kindOf(b.t) != kErr {
+		b = f.convVal(b, a.t, e.Y)
+	} else if kindOf(b.t) == kErr && kindOf(a.t) != kErr {
+		a = f.convVal(a, b.t, e.X)
+	}
 	ka := kindOf(a.t)
 
 	switch e.Op {
@@ -486,6 +516,14 @@ func (f *fn) convVal(v val, to types.Type, n ast.Node) val {
 		r.s = v.s
 	case kt == kf && (kt == kBool || kt == kErr):
 		r.s = v.s
+	case kt == kErr && v.cv != nil && (kf == kUnsigned || kf == kSigned):
+		// a constant of a named integer type that implements `error`, boxed into the interface
+		nt, ok := v.t.(*types.Named)
+		iv, ok2 := constant.Uint64Val(constant.ToInt(v.cv))
+		if !ok || !ok2 {
+			f.unsupported(n, "conversion from %s to error", v.t)
+		}
+		r.s = fmt.Sprintf("(Err.val %q %d)", nt.Obj().Pkg().Name()+"."+nt.Obj().Name(), iv)
 	case kt == kStruct && kf == kStruct && types.Identical(deref(v.t), deref(to)):
 		r.s = v.s
 	case kt == kSlice && kf == kSlice, kt == kMap && kf == kMap:
@@ -631,11 +669,18 @@ func (f *fn) callExpr(c *ast.CallExpr) val {
 			return *sv
 		}
 		ci := f.x.translate(fo, f, c)
-		if !ci.pure || ci.mutates {
-			f.unsupported(c, "call of %s, which can panic / run out of fuel / change its receiver, inside an expression (only `x := f(…)`, `x = f(…)`, `f(…)`, `return f(…)` are supported for such functions)", ci.lean)
-		}
 		if len(ci.resTypes) != 1 {
 			f.unsupported(c, "call of %s with %d results inside an expression", ci.lean, len(ci.resTypes))
+		}
+		if ci.mutates || len(ci.inout) != 0 {
+			f.unsupported(c, "call of %s, which changes its receiver or a slice argument, inside an expression (only `x := f(…)`, `x = f(…)`, `f(…)`, `return f(…)` are supported for such functions)", ci.lean)
+		}
+		if !ci.pure {
+			// Res-valued: evaluate before the expression (Go evaluates calls left to right)
+			name := fmt.Sprintf("c%d", f.tmpN)
+			f.tmpN++
+			g := f.hoistCall(c, ci, []string{name})
+			return val{s: name, g: g, t: ci.resTypes[0], nat: ci.resNat[0]}
 		}
 		s, g := f.callText(c, ci)
 		return val{s: "(" + s + ")", g: g, t: ci.resTypes[0], nat: ci.resNat[0]}
